@@ -2,7 +2,10 @@ import DFV.Model.Field
 /-!
 C07 model: `Mesh._sel_convert_input`, `Mesh.sel`, `Field.sel`, `Mesh.__getitem__`,
 `Field.__getitem__`, `Mesh.region2slices`, `Mesh.pad`, `Field.pad` (numpy pad modes as
-index maps), `Field.resample` (nearest source cell through coordinate lookup).
+index maps), `Field.resample` (nearest source cell through coordinate lookup; `resampleFast`: the
+same in closed form), and the same entry points on requests with non-finite coordinates (`ExtRat`,
+IEEE comparisons: `selConvertE`, `selMeshE`, `selFldE`, `point2indexE`, `getRegionE`, `getItemE`,
+`region2slicesE`).
 Code-shaped: same order of checks, same intermediate quantities (cell centres, half
 cells, `floor` / `ceil - 1`), constructor paths (`Region.mk?`, `Mesh.mkCell?`, the
 subregion setter) exactly where the Python goes through constructors; the `Field(...)` call that
@@ -471,6 +474,253 @@ def resample (f : Fld) (n : List Int) : M Fld :=
     | .ok m =>
       if !f.mesh.region.containsReg m.region then .error .value
       else mkFld m f (resampleNDA f.mesh m f.data) (resampleNDA f.mesh m f.valid)
+
+/-- source index of target cell `j` along an axis of `n` source and `n'` target cells, in closed form -/
+def resampleIdx (n n' j : Nat) : Nat := ((2 * j + 1) * n) / (2 * n')
+
+/-- the lookup of `resampleNDA` in closed form (no coordinate tables) -/
+def resampleNDAFast {α} (src tgt : Mesh) (x : NDA α) : NDA α :=
+  ⟨tgt.n, fun j => x.get (tab src.ndim fun a => resampleIdx (src.nAt a) (tgt.nAt a) (j.getD a 0))⟩
+
+/-- `Field.resample(n)` with the nearest-coordinate lookup replaced by its closed form: linear
+instead of quadratic in the axis length.  Equal to `resample` on every cell of every result
+(theorem `resample_fast_refines`); the driver uses it for axes of thousands of cells. -/
+def resampleFast (f : Fld) (n : List Int) : M Fld :=
+  if n.length ≠ f.mesh.ndim then .error .value
+  else if n.any (fun k => decide (k ≤ 0)) then .error .value
+  else
+    match Mesh.mkN? f.mesh.region (n.map Int.toNat) with
+    | .error e => .error e
+    | .ok m =>
+      if !f.mesh.region.containsReg m.region then .error .value
+      else mkFld m f (resampleNDAFast f.mesh m f.data) (resampleNDAFast f.mesh m f.valid)
+
+/-! ## non-finite requests
+
+Binary64 coordinates the code may be handed that are not numbers of the rational model: `+inf`,
+`-inf`, `nan`.  The comparisons the code makes on them are modelled with their IEEE-754 meaning
+(`nan` compares false with everything, also with itself; `-inf < q < +inf` for every finite `q`),
+`numpy.isclose` of a finite bound with a non-finite value is false, `numpy.minimum` / `maximum`
+propagate `nan`, and Python's `sorted` of a two-element sequence swaps exactly when the second
+element compares `<` the first.  Everything after the containment test of `point2index` works on
+finite numbers only (proved: `containsAxE_fin`), so from there on the rational model applies. -/
+
+/-- a coordinate as the code may receive it: a finite number or one of the non-finite values -/
+inductive ExtRat where
+  | fin (q : Rat)
+  | posInf
+  | negInf
+  | nan
+  deriving Repr, DecidableEq
+
+namespace ExtRat
+
+/-- IEEE `<` -/
+def lt : ExtRat → ExtRat → Bool
+  | nan, _ => false
+  | _, nan => false
+  | fin a, fin b => decide (a < b)
+  | fin _, posInf => true
+  | fin _, negInf => false
+  | posInf, _ => false
+  | negInf, negInf => false
+  | negInf, _ => true
+
+/-- IEEE `<=` -/
+def le : ExtRat → ExtRat → Bool
+  | nan, _ => false
+  | _, nan => false
+  | fin a, fin b => decide (a ≤ b)
+  | fin _, posInf => true
+  | fin _, negInf => false
+  | posInf, posInf => true
+  | posInf, _ => false
+  | negInf, _ => true
+
+/-- `x + c` for a finite `c` -/
+def addRat : ExtRat → Rat → ExtRat
+  | fin q, c => fin (q + c)
+  | posInf, _ => posInf
+  | negInf, _ => negInf
+  | nan, _ => nan
+
+def toRat? : ExtRat → Option Rat
+  | fin q => some q
+  | _ => none
+
+/-- `numpy.minimum` (propagates `nan`) -/
+def minE (x y : ExtRat) : ExtRat :=
+  match x, y with
+  | nan, _ => nan
+  | _, nan => nan
+  | _, _ => if lt y x then y else x
+
+/-- `numpy.maximum` (propagates `nan`) -/
+def maxE (x y : ExtRat) : ExtRat :=
+  match x, y with
+  | nan, _ => nan
+  | _, nan => nan
+  | _, _ => if lt x y then y else x
+
+/-- `x - y != 0` in IEEE arithmetic: only two equal finite numbers have difference zero -/
+def diffNonzero : ExtRat → ExtRat → Bool
+  | fin a, fin b => decide (a ≠ b)
+  | _, _ => true
+
+end ExtRat
+
+/-- all entries finite -> the rational list -/
+def finList? : List ExtRat → Option (List Rat)
+  | [] => some []
+  | x :: rest =>
+    match x.toRat?, finList? rest with
+    | some q, some l => some (q :: l)
+    | _, _ => none
+
+/-- `np.isclose(a, b, rtol, atol)` for a finite bound `a` and a possibly non-finite `b` -/
+def iscloseE (a : Rat) (b : ExtRat) (rtol atol : Rat) : Bool :=
+  match b with
+  | .fin q => Region.isclose a q rtol atol
+  | _ => false
+
+/-- one axis of `point in region` with IEEE comparisons -/
+def containsAxE (r : Region) (a : Nat) (x : ExtRat) : Bool :=
+  (ExtRat.le (.fin (r.lo a)) x || iscloseE (r.lo a) x r.tol r.atol) &&
+  (ExtRat.le x (.fin (r.hi a)) || iscloseE (r.hi a) x r.tol r.atol)
+
+/-- `point in region` -/
+def containsPtE (r : Region) (p : List ExtRat) : Bool :=
+  decide (p.length = r.ndim) && allLt r.ndim fun a => containsAxE r a (p.getD a (.fin 0))
+
+/-- `Mesh.point2index` on a point that may have non-finite coordinates: length test, containment
+test, then floor and clip (on finite numbers: a contained point is finite) -/
+def point2indexE (m : Mesh) (p : List ExtRat) : M (List Nat) :=
+  if p.length ≠ m.ndim then .error .value
+  else if !containsPtE m.region p then .error .value
+  else
+    match finList? p with
+    | none => .error .value
+    | some q => .ok (tab m.ndim fun a => m.indexAx a (q.getD a 0))
+
+inductive SelArgE where
+  | centre
+  | point (x : ExtRat)
+  | range (x y : ExtRat)
+  | bad
+  deriving Repr, DecidableEq
+
+/-- `region.pmin` with coordinate `a` replaced by `x` -/
+def testPointE (m : Mesh) (a : Nat) (x : ExtRat) : List ExtRat := setAt (m.region.pmin.map .fin) a x
+
+def cellOfE (m : Mesh) (a : Nat) (p : List ExtRat) : M (Rat × Nat) :=
+  match point2indexE m p with
+  | .error e => .error e
+  | .ok idx =>
+    match m.index2point (natsToInts idx) with
+    | .error e => .error e
+    | .ok c => .ok (c.getD a 0, idx.getD a 0)
+
+/-- `range_ < pmin[a] or range_ > pmax[a]` (both false for `nan`), then the cell lookup -/
+def selOneE (m : Mesh) (a : Nat) (x : ExtRat) : M (Rat × Nat) :=
+  if ExtRat.lt x (.fin (m.region.lo a)) || ExtRat.lt (.fin (m.region.hi a)) x then .error .value
+  else cellOfE m a (testPointE m a x)
+
+/-- `sorted((x, y))`: the two are swapped exactly when `y < x` -/
+def sort2 (x y : ExtRat) : ExtRat × ExtRat := if ExtRat.lt y x then (y, x) else (x, y)
+
+/-- `_sel_convert_input` on possibly non-finite values -/
+def selConvertE (m : Mesh) (dim : String) (arg : SelArgE) : M (Nat × SelIdx) :=
+  match m.region.dim2index dim with
+  | .error e => .error e
+  | .ok a =>
+    match arg with
+    | .bad => .error .value
+    | .point x =>
+      match selOneE m a x with
+      | .error e => .error e
+      | .ok ck => .ok (a, .plane ck.1 ck.2)
+    | .range x y =>
+      match selOneE m a (sort2 x y).1 with
+      | .error e => .error e
+      | .ok ck1 =>
+        match selOneE m a (sort2 x y).2 with
+        | .error e => .error e
+        | .ok ck2 => .ok (a, .range ck1.1 ck2.1 ck1.2 ck2.2)
+    | .centre =>
+      match cellOf m a m.region.center with
+      | .error e => .error e
+      | .ok ck => .ok (a, .plane ck.1 ck.2)
+
+/-- `Mesh.sel` -/
+def selMeshE (m : Mesh) (dim : String) (arg : SelArgE) : M Mesh :=
+  match selConvertE m dim arg with
+  | .error e => .error e
+  | .ok ai => selMeshOf m ai.1 ai.2
+
+/-- `Field.sel` -/
+def selFldE (f : Fld) (dim : String) (arg : SelArgE) : M SelOut :=
+  match selConvertE f.mesh dim arg with
+  | .error e => .error e
+  | .ok ai =>
+    match selMeshE f.mesh dim arg with
+    | .error e =>
+      match ai.2 with
+      | .plane _ _ =>
+        if f.mesh.ndim = 1 then .ok (.values ((selData f.data ai.1 ai.2).get [])) else .error e
+      | .range _ _ _ _ => .error e
+    | .ok m =>
+      match mkFld m f (selData f.data ai.1 ai.2) (selData f.valid ai.1 ai.2) with
+      | .error e => .error e
+      | .ok g => .ok (.field g)
+
+/-- corners of `Region(p1=…, p2=…)` (default names and units) when the coordinates may be
+non-finite: length tests, `numpy.minimum` / `maximum`, zero-edge test -/
+def boxMkE? (p1 p2 : List ExtRat) : M (List ExtRat × List ExtRat) :=
+  if p1.length ≠ p2.length then .error .value
+  else if p1.length = 0 then .error .value
+  else if !allLt p1.length (fun a => ExtRat.diffNonzero (p1.getD a (.fin 0)) (p2.getD a (.fin 0)))
+    then .error .value
+  else .ok (tab p1.length fun a => ExtRat.minE (p1.getD a (.fin 0)) (p2.getD a (.fin 0)),
+            tab p1.length fun a => ExtRat.maxE (p1.getD a (.fin 0)) (p2.getD a (.fin 0)))
+
+/-- the finite box as the `Region` the rational model works with (only the corners are read by
+`mesh[region]` and `region2slices`) -/
+def boxRegion (pmin pmax : List Rat) : Region :=
+  { pmin := pmin, pmax := pmax, dims := Region.defaultDims pmin.length,
+    units := List.replicate pmin.length "m", tol := 1/1000000000000 }
+
+/-- `mesh[region]` for a region with corners `pmin`, `pmax`: `item not in self.region` with IEEE
+comparisons, then (all coordinates finite) the rational model -/
+def getRegionE (m : Mesh) (pmin pmax : List ExtRat) : M Mesh :=
+  if !(containsPtE m.region pmin && containsPtE m.region pmax) then .error .value
+  else
+    match finList? pmin, finList? pmax with
+    | some a, some b => getRegion m (boxRegion a b)
+    | _, _ => .error .value
+
+/-- `field[region]` -/
+def getItemE (f : Fld) (pmin pmax : List ExtRat) : M Fld :=
+  match getRegionE f.mesh pmin pmax with
+  | .error e => .error e
+  | .ok sm =>
+    match sm.index2point (List.replicate sm.ndim 0) with
+    | .error e => .error e
+    | .ok p0 =>
+      match f.mesh.point2index p0 with
+      | .error e => .error e
+      | .ok imin => mkFld sm f (sliceBlock f.data imin sm.n) (sliceBlock f.valid imin sm.n)
+
+/-- `Mesh.region2slices` for a region with corners `pmin`, `pmax` -/
+def region2slicesE (m : Mesh) (pmin pmax : List ExtRat) : M (List (Nat × Nat)) :=
+  if pmin.length ≠ m.ndim then .error .value
+  else
+    match point2indexE m (tab m.ndim fun a => (pmin.getD a (.fin 0)).addRat (m.cellAt a / 2)) with
+    | .error e => .error e
+    | .ok i1 =>
+      match point2indexE m (tab m.ndim fun a => (pmax.getD a (.fin 0)).addRat (-(m.cellAt a / 2))) with
+      | .error e => .error e
+      | .ok i2 => .ok (tab m.ndim fun a => (i1.getD a 0, i2.getD a 0 + 1))
+
 
 /-! ## element type of the result's value array -/
 
